@@ -186,6 +186,43 @@ def check_one(args):
         shutil.rmtree(w, ignore_errors=True)
 
 
+DRV = "/tmp/mut/driver"
+DATA = "/tmp/mut/data"
+
+
+def diff_one(args):
+    """behavioural difference against the pristine library, by the differential driver (development aid)"""
+    mid, outdir = args
+    d = os.path.join(outdir, mid)
+    res = os.path.join(d, "diff.json")
+    if os.path.exists(res):
+        return json.load(open(res))
+    w = scratch_with(mid, outdir)
+    try:
+        out = {"id": mid}
+        b = subprocess.run([os.path.join(DRV, "build.sh"), w, os.path.join(w, "bin")], capture_output=True, text=True, timeout=600)
+        if b.returncode != 0 or not os.path.exists(os.path.join(w, "bin")):
+            out["differs"] = None
+            out["note"] = "driver build failed: " + (b.stdout + b.stderr)[-200:]
+        else:
+            env = dict(os.environ, DRIVER_JOBS="2")
+            r = subprocess.run("%s %s %s > %s 2>/dev/null" % (os.path.join(DRV, "run.sh"), os.path.join(w, "bin"), DATA, os.path.join(w, "dump")), shell=True, env=env, timeout=900)
+            c = subprocess.run("diff /tmp/mut/dump.pristine %s | head -400" % os.path.join(w, "dump"), shell=True, capture_output=True, text=True)
+            lines = c.stdout.splitlines()
+            out["differs"] = bool(lines)
+            out["n_diff_lines"] = int(subprocess.run("diff /tmp/mut/dump.pristine %s | grep -c '^[<>]'" % os.path.join(w, "dump"), shell=True, capture_output=True, text=True).stdout.strip() or 0)
+            out["sample"] = [l[:200] for l in lines if l.startswith(">") or l.startswith("<")][:12]
+            out["sanitizer"] = any("SANITIZER:" in l or "CRASH:" in l or "TIMEOUT:" in l for l in lines)
+        json.dump(out, open(res, "w"))
+        return out
+    except subprocess.TimeoutExpired:
+        out = {"id": mid, "differs": True, "note": "driver timeout", "sanitizer": True, "n_diff_lines": -1, "sample": []}
+        json.dump(out, open(res, "w"))
+        return out
+    finally:
+        shutil.rmtree(w, ignore_errors=True)
+
+
 def main():
     cmd, outdir = sys.argv[1], sys.argv[2]
     jobs = int(sys.argv[sys.argv.index("-j") + 1]) if "-j" in sys.argv else 8
@@ -204,6 +241,13 @@ def main():
         print("%d mutants, %d do not build, %d killed by the tests, %d survive" % (
             len(rs), len([r for r in rs if not r.get("built")]), len([r for r in rs if r.get("built") and not r.get("tests_pass")]), len(surv)))
         json.dump(surv, open(os.path.join(outdir, "survivors.json"), "w"))
+    elif cmd == "diff":
+        surv = json.load(open(os.path.join(outdir, "survivors.json")))
+        with ThreadPoolExecutor(max_workers=jobs) as ex:
+            rs = list(ex.map(diff_one, [(m, outdir) for m in surv]))
+        print("%d survivors: %d change the driver's dump (%d with a sanitizer report / crash / hang), %d leave it unchanged, %d not built" % (
+            len(rs), len([r for r in rs if r.get("differs")]), len([r for r in rs if r.get("differs") and r.get("sanitizer")]),
+            len([r for r in rs if r.get("differs") is False]), len([r for r in rs if r.get("differs") is None])))
     elif cmd == "check":
         surv = json.load(open(os.path.join(outdir, "survivors.json")))
         with ThreadPoolExecutor(max_workers=jobs) as ex:
